@@ -26,7 +26,11 @@ def annotate(x, rng, p=0.8):
             if k == "bin" and x.get("m") in VIA_STRUCT_BIN: x["x"] = True
             elif k in ("not", "between", "in", "insub", "isnull", "cast", "asenum") and isinstance(x.get("e"), dict): x["x"] = True
             elif k == "like" and not x.get("ci") and isinstance(x.get("e"), dict): x["x"] = True
+            elif k in ("cust", "tuple", "col", "val") or (k == "kw" and x.get("w") != "Null"): x["x"] = True
             elif k == "fn" and ((x.get("f") in ("Max", "Min", "Sum", "Count", "CountDistinct") and len(x.get("args", [])) == 1) or (x.get("f") == "IfNull" and len(x.get("args", [])) == 2)): x["x"] = True
+        # frame clauses: through frame(), or through frame_start / frame_between
+        if "start" in x and "type" in x and "m" not in x and "k" not in x and rng.random() < 0.5:
+            x["m"] = "frame_between" if x.get("end") is not None else "frame_start"
         for v in x.values():
             if isinstance(v, (dict, list)): annotate(v, rng, p)
     return x
@@ -52,6 +56,8 @@ def annotate_calls(x, rng, p=0.5):
     if isinstance(x, list):
         for y in x: annotate_calls(y, rng, p)
     elif isinstance(x, dict):
+        if x.get("kind") == "select" and isinstance(x.get("calls"), list) and "take" not in x and rng.random() < 0.3:
+            x["take"] = True        # built with Query::select()....take()
         if x.get("kind") in ("select", "update", "delete", "insert") and isinstance(x.get("calls"), list):
             for c in x["calls"]:
                 if "m" not in c and rng.random() < p:
